@@ -2,6 +2,7 @@ SPECIFICATION Spec
 CONSTANTS
   Keys = {"a", "ab"}
   MaxLen = 7
+  Switch = 1
   MaxQueue = 2
 INVARIANTS QueueBounded HeldMatches
 VIEW View
